@@ -207,6 +207,15 @@ json::Value exprJ(Ctx& X, const Expr* E, int depth = 0) {
       return json::Object{{"op", "bin"}, {"o", getOperatorSpelling(op)}, {"l", exprJ(X, oc->getArg(0), depth + 1)}, {"r", exprJ(X, oc->getArg(1), depth + 1)}};
     if (oc->getNumArgs() == 1 && op == OO_Exclaim) return json::Object{{"op", "un"}, {"o", "!"}, {"e", exprJ(X, oc->getArg(0), depth + 1)}};
   }
+  if (auto* ec = dyn_cast<ExplicitCastExpr>(S)) {
+    // (T&&)x / static_cast<T&&>(x): the library's spelling of std::forward / std::move
+    QualType wt = ec->getTypeAsWritten();
+    if (!wt.isNull() && wt->isRValueReferenceType()) {
+      json::Value inner = exprJ(X, ec->getSubExpr(), depth + 1);
+      if (auto* io = inner.getAsObject()) (*io)["fw"] = true;
+      return inner;
+    }
+  }
   if (auto* c = dyn_cast<CallExpr>(S)) {
     std::string n = calleeName(X, c->getCallee());
     if (isTransparent(n) && c->getNumArgs() >= 1) {
@@ -214,6 +223,8 @@ json::Value exprJ(Ctx& X, const Expr* E, int depth = 0) {
       // remember that the operand was passed through std::move (needed by the use-after-move rule)
       if (n.size() >= 4 && n.compare(n.size() - 4, 4, "move") == 0)
         if (auto* io = inner.getAsObject()) (*io)["mv"] = true;
+      if (n.size() >= 7 && n.compare(n.size() - 7, 7, "forward") == 0)
+        if (auto* io = inner.getAsObject()) (*io)["fw"] = true;
       return inner;
     }
     auto it = X.eid.find(c);
@@ -418,7 +429,13 @@ json::Object extractBody(Ctx& X, const Decl* D, const Stmt* Body) {
         int ln = lineOf(X, st->getBeginLoc());
         if (ln) { if (!firstLine) firstLine = ln; lastLine = ln; }
         json::Value ev = eventOf(X, st);
-        if (ev.getAsObject()) elems.push_back(std::move(ev));
+        if (auto* eo = ev.getAsObject()) {
+          // source range (expansion locations) - lets rules tell "nested in the same full expression" from "a later statement"
+          SourceLocation b = X.SM.getExpansionLoc(st->getBeginLoc()), e2 = X.SM.getExpansionLoc(st->getEndLoc());
+          if (b.isValid() && e2.isValid())
+            (*eo)["rng"] = json::Array{(int)X.SM.getExpansionLineNumber(b), (int)X.SM.getExpansionColumnNumber(b), (int)X.SM.getExpansionLineNumber(e2), (int)X.SM.getExpansionColumnNumber(e2)};
+          elems.push_back(std::move(ev));
+        }
       } else if (auto I = El.getAs<CFGInitializer>()) {
         auto* ci = I->getInitializer();
         json::Object o{{"k", "init"}};
@@ -515,6 +532,7 @@ struct V : RecursiveASTVisitor<V> {
     if (auto* fpt = F->getType()->getAs<FunctionProtoType>()) {
       auto est = fpt->getExceptionSpecType();
       fo["noexcept"] = (est == EST_BasicNoexcept || est == EST_NoexceptTrue || est == EST_NoThrow) ? "yes" : (est == EST_DependentNoexcept ? "dependent" : (est == EST_None ? "none" : "other"));
+      if (const Expr* ne = fpt->getNoexceptExpr()) fo["noexcept_text"] = srcText(X, ne->getSourceRange(), 900);
     }
     funcs.push_back(std::move(fo));
   }
